@@ -618,12 +618,15 @@ def history_strategy(variant):
 
 
 def real_strategy():
+    """Mostly messages larger than the (minimal) kernel buffer so that real partial sends and EAGAINs occur."""
+    big = st.integers(5000, 60000)
     op = st.one_of(
-        st.builds(lambda n: ["tx", n], st.one_of(st.integers(1, 2000), st.integers(2000, 60000))),
-        st.just(["svtx"]), st.just(["svtx"]),
+        st.builds(lambda n: ["tx", n], st.one_of(st.integers(1, 2000), big, big)),
+        st.builds(lambda n: ["tx", n], big),
+        st.just(["svtx"]), st.just(["svtx"]), st.just(["svtx"]),
         st.builds(lambda n: ["drain", n], st.one_of(st.integers(1, 3000), st.integers(1, 100000))),
     )
-    return st.lists(op, min_size=3, max_size=40)
+    return st.lists(op, min_size=5, max_size=40)
 
 
 def replay(case):
